@@ -5,7 +5,8 @@ from .common import *
 EXPLANATION = ("Decides necessary structural conditions of exact deadlock reporting on the MIR of the current tree: "
                "the discipline of Thread.state (S1-S8: who may block/wake whom, guarded by what), the deadlock "
                "assertion in Execution::schedule (D1) and the derivation of blocking conditions from object state (D2). "
-               "A pass means all clauses hold, never that the behaviour holds for every interleaving.")
+               "A pass means all clauses hold, never that the behaviour holds for every interleaving."
+               " The block loop of post_acquire* is unconditional on the success path (S5b); G0/G1 cross-check the block/wake/unpark/schedule/terminate steps against the reference tree.")
 RULE_TEXT = ("rule instances = transition sites of Thread.state / blocking call sites found in the resolved call graph; "
              "an instance is non-trivial when it matched at least one concrete MIR call site")
 LEVEL_NOTE = "necessary conditions only; per-interleaving bookkeeping is not decided"
